@@ -537,10 +537,12 @@ class Run:
             "coverage": coverage, "assumptions": assumptions, "wall_s": round(wall, 2),
             "violations": len(self.violations),
         }
-        os.makedirs(os.path.join(ROOT, "evidence"), exist_ok=True)
+        # trial runs against a scratch copy of the repository never overwrite the committed evidence
+        evdir = os.path.join(ROOT, "evidence") if os.path.realpath(REPO) == "/repo" else os.path.join(ROOT, "build", "trial-evidence")
+        os.makedirs(evdir, exist_ok=True)
         rc = 0
         if self.violations:
-            rdir = os.path.join(ROOT, "evidence", "replay")
+            rdir = os.path.join(evdir, "replay")
             os.makedirs(rdir, exist_ok=True)
             rpath = os.path.join(rdir, "%s-%d.json" % (self.prop, self.seed))
             with open(rpath, "w") as f:
@@ -553,7 +555,7 @@ class Run:
                 print("VIOLATION property=%s replay=%s no-failing-input-found" % (self.prop, rpath))
             ev["coverage"]["replay"] = rpath
             rc = 1
-        with open(os.path.join(ROOT, "evidence", "%s.json" % self.prop), "w") as f:
+        with open(os.path.join(evdir, "%s.json" % self.prop), "w") as f:
             json.dump(ev, f, indent=1, default=str)
         print("%s tier=%s seed=%d: %s in %.1fs" % (self.prop, self.tier, self.seed,
                                                   "OK" if rc == 0 else "VIOLATION", wall))
